@@ -301,6 +301,14 @@ fn zero_slots(rng: &mut Rng) -> String {
         out.push_str(&s.replace("{{", "{").replace("}}", "}"));
         out.push('\n');
     }
+    // the diagnostics these ledgers provoke are also rendered for CRLF files and next to
+    // multi-byte account names
+    if rng.chance(1, 4) {
+        out = out.replace("    A ", "    資産:銀行 ").replace("    B", "    負債:カード");
+    }
+    if rng.chance(1, 3) {
+        out = out.replace('\n', "\r\n");
+    }
     out
 }
 
@@ -408,11 +416,17 @@ fn deep_nesting(depth: usize, kind: u64) -> String {
         0 => format!("2024/01/01 t\n    A    {}1 USD{}\n    B\n", "(".repeat(depth), ")".repeat(depth)),
         1 => format!("2024/01/01 t\n    A    {}1 USD{}\n    B\n", "(-".repeat(depth), ")".repeat(depth)),
         2 => format!("2024/01/01 t\n    A    (1 USD{})\n    B\n", " + 1 USD".repeat(depth)),
-        _ => format!("2024/01/01 t\n    A    1 USD @ {}1 EUR{}\n    B\n", "(".repeat(depth), ")".repeat(depth)),
+        3 => format!("2024/01/01 t\n    A    1 USD @ {}1 EUR{}\n    B\n", "(".repeat(depth), ")".repeat(depth)),
+        // binary operations nested to the right, every left operand a bare number (printing and
+        // evaluating them must stay linear in the depth)
+        _ => format!("2024/01/01 t\n    A    {}100 USD{}\n    B\n", "(1.01 * ".repeat(depth), ")".repeat(depth)),
     }
 }
 
 const DEPTHS: &[usize] = &[1, 8, 64, 200, 1000, 3000, 8000, 16000, 30000];
+/// depths of the right-nested operator chains (`(1.01 * (1.01 * ( ... 100 USD)))`): work that doubles per
+/// level is minutes at 28 and hours at 34
+const RIGHT_NESTED: &[usize] = &[8, 16, 24, 30, 34, 40, 60, 200];
 
 struct Plan {
     prefix_gen: u64,
@@ -592,7 +606,7 @@ fn plan(tier: Tier) -> Plan {
         random: tier.pick(2_000, 100_000),
         zeros: tier.pick(4_000, 200_000),
         includes: tier.pick(3_000, 100_000),
-        deep: (DEPTHS.len() * 4) as u64,
+        deep: (DEPTHS.len() * 4 + RIGHT_NESTED.len()) as u64,
         prices: tier.pick(400, 30_000),
         large: tier.pick(6, 48),
         cli: tier.pick(250, 6_000),
@@ -847,8 +861,7 @@ impl Check for C06 {
         }
         i -= p.includes;
         if i < p.deep {
-            let depth = DEPTHS[(i / 4) as usize];
-            let kind = i % 4;
+            let (depth, kind) = if (i as usize) < DEPTHS.len() * 4 { (DEPTHS[(i / 4) as usize], i % 4) } else { (RIGHT_NESTED[i as usize - DEPTHS.len() * 4], 4) };
             let text = deep_nesting(depth, kind);
             if text.len() <= 64 * 1024 {
                 rec.count(&format!("deep:kind{}:depth{}", kind, depth));
@@ -888,7 +901,7 @@ impl Check for C06 {
          line swaps, numbers replaced by zeros / extreme values); random strings over the ledger alphabet with arbitrary Unicode; \
          ledgers with zeros and boundary values in every slot that accepts a number, and with date-shaped tokens of 5-12 bytes (widths other than 4-2-2, mixed separators) as transaction, effective and lot date; include graphs of 2-5 files with self-includes, \
          cycles (also through edges written as patterns), globs, missing and malformed targets on the in-memory and the real file system; nesting depth 1..30000 of \
-         parentheses / unary minus / operator chains within 64 KiB; price graphs with many equally good conversion chains (rows of 5-45 \
+         parentheses / unary minus / operator chains within 64 KiB, right-nested operator chains of depth 8..200; a third of the zero-slot ledgers with CRLF line ends, a quarter with multi-byte account names; price graphs with many equally good conversion chains (rows of 5-45 \
          diamonds, cliques of 5-14, chains of 30-200, grids up to 7x7, random graphs; all rates on 1-3 days); inputs far beyond the usual size (an ordinary ledger of 40 000-120 000 transactions through the binary, single tokens of 70 000 characters, one expression of 100 000 terms); black-box runs of the real binary (format, balance, balance -X, \
          --historical, register, accounts, primitive flatten, primitive eval). Operations per input: parse_ledger (+ Display of \
          the error), FormatOptions::format, report::process on the fake file system followed by balance (plain, ranged, -X \
